@@ -260,7 +260,7 @@ CHECKS = {
     "C01": {
         "trace_module": "Trace_PeerSync",
         "mc": [MC_PEERSYNC],
-        "drivers": [peersync("mut", 60, 500, 3, 10, ["maxmut=60"]), peersync("adv", 150, 1000, 1, 3), peersync("honest", 30, 150, 1, 3), replay(200, 2000, 2, 6)],
+        "drivers": [peersync("mut", 60, 500, 3, 10, ["maxmut=60"]), peersync("adv", 50, 350, 3, 3), peersync("honest", 30, 150, 1, 3), replay(200, 2000, 2, 6)],
         "assumptions": COMMON_ASSUMPTIONS + [
             "mutations are constructed to be definitely incorrect answers (DESIGN.md 4 C01); the violated attribute is set by construction",
             "'byte-for-byte unchanged' is checked on the projected trusted state (peer prove states, LAST_STATE, LAST_N_HEADERS) read back from the real objects/RocksDB",
@@ -284,7 +284,7 @@ CHECKS = {
     "C12": {
         "trace_module": "Trace_PeerSync",
         "mc": [MC_PEERSYNC, MC_PEERSYNC_SHORT],
-        "drivers": [peersync("tip", 120, 800, 2, 8), peersync("tipeq", 60, 400, 1, 4), peersync("honest", 30, 200, 2, 4), peersync("adv", 150, 1000, 1, 3), replay(200, 2000, 2, 6)],
+        "drivers": [peersync("tip", 120, 800, 2, 8), peersync("tipeq", 60, 400, 1, 4), peersync("honest", 30, 200, 2, 4), peersync("adv", 50, 350, 3, 3), replay(200, 2000, 2, 6)],
         "assumptions": COMMON_ASSUMPTIONS,
     },
 }
